@@ -97,7 +97,7 @@ def _standalone_job(k):
 
     rng = np.random.default_rng(seed() * 211 + k)
     prob = om.Problem(reports=False)
-    what = ["atmos", "monotonic", "multisec", "mphys", "energy"][k % 5]
+    what = ["atmos", "monotonic", "multisec", "mphys", "energy", "ks"][k % 6]
     if what == "atmos":
         prob.model.add_subsystem("a", AtmosGroup(), promotes=["*"])
         prob.model.set_input_defaults("altitude", float(rng.uniform(500, 58000)), units="ft")
@@ -136,6 +136,16 @@ def _standalone_job(k):
         prob.model.add_subsystem("demux", DemuxSurfaceMesh(surfaces=dicts))
         prob.model.connect("x", "demux." + MPhysVariables.Aerodynamics.Surface.COORDINATES)
         prob.model.add_subsystem("mux", MuxSurfaceForces(surfaces=dicts), promotes_inputs=["*_mesh_point_forces"])
+    elif what == "ks":
+        # the failure aggregate at stress levels from far below to far above the allowable (admissible: C15 demands no overflow)
+        from openaerostruct.structures.failure_ks import FailureKS
+
+        ny = int(rng.integers(3, 8))
+        ncrit = 2 if k % 12 < 6 else 4
+        surf = {"name": "wing", "mesh": np.zeros((2, ny, 3)), "symmetry": True, "fem_model_type": "tube" if ncrit == 2 else "wingbox", "yield": 2.0e8, "safety_factor": 1.0}
+        prob.model.add_subsystem("ks", FailureKS(surface=surf, rho=100.0), promotes=["*"])
+        top = 2.0e8 * float(10.0 ** rng.uniform(-1.5, 1.5))
+        prob.model.set_input_defaults("vonmises", top * rng.uniform(0.2, 1.0, (ny - 1, ncrit)))
     else:
         ny = 4
         surf = {"name": "wing", "mesh": np.zeros((2, ny, 3)), "symmetry": True}
@@ -172,7 +182,7 @@ def run(tier, only=None):
             tot[kk] += r["stats"][kk]
         for sig, p in r["bad"]:
             R.violation(sig, {"cfg": r["cfg"], "k": r["k"], "detail": p})
-    for r in check_exc(pmap(_standalone_job, range(10 if tier == "quick" else 50))):
+    for r in check_exc(pmap(_standalone_job, range(18 if tier == "quick" else 90))):
         R.case(["standalone", r["what"], r["k"]], True, section="standalone")
         classes |= set(r["classes"])
         tot["blocks"] += r["blocks"]
